@@ -294,11 +294,24 @@ struct WState {
     child: std::process::Child,
     inflight: Option<usize>,
     inflight_since: Instant,
+    /// processor time the worker had used when the case in flight began
+    inflight_cpu0: f64,
     checkpoint: usize,
     skip: Vec<usize>,
     done: bool,
     clean_end: bool,
     restarts: u32,
+}
+
+/// processor time (user + system, all threads) a process has used so far, from /proc/<pid>/stat
+fn cpu_seconds(pid: u32) -> Option<f64> {
+    let s = std::fs::read_to_string(format!("/proc/{}/stat", pid)).ok()?;
+    // the command name (field 2) may contain blanks: the numeric fields follow the last ')'
+    let rest = &s[s.rfind(')')? + 1..];
+    let f: Vec<&str> = rest.split_whitespace().collect();
+    // after the command name: state is f[0]; utime and stime are fields 14 and 15 of the line = f[11], f[12]
+    let ticks: f64 = f.get(11)?.parse::<f64>().ok()? + f.get(12)?.parse::<f64>().ok()?;
+    Some(ticks / 100.0)
 }
 
 pub fn run_family(fam: &dyn Family, tier: Tier, wall_cap: Duration) -> FamilyResult {
@@ -311,6 +324,7 @@ pub fn run_family(fam: &dyn Family, tier: Tier, wall_cap: Duration) -> FamilyRes
             child: spawn_worker(&exe, fam.name(), tier, w, k, 0, &[], tx.clone()),
             inflight: None,
             inflight_since: Instant::now(),
+            inflight_cpu0: 0.0,
             checkpoint: 0,
             skip: vec![],
             done: false,
@@ -331,6 +345,7 @@ pub fn run_family(fam: &dyn Family, tier: Tier, wall_cap: Duration) -> FamilyRes
                 if let Some(rest) = l.strip_prefix("B ") {
                     st.inflight = rest.trim().parse().ok();
                     st.inflight_since = Instant::now();
+                    st.inflight_cpu0 = cpu_seconds(st.child.id()).unwrap_or(0.0);
                 } else if let Some(rest) = l.strip_prefix("F ") {
                     if let Some((idx, js)) = rest.split_once(' ') {
                         if let (Ok(idx), Ok(v)) = (idx.parse::<usize>(), serde_json::from_str::<Value>(js)) {
@@ -396,11 +411,19 @@ pub fn run_family(fam: &dyn Family, tier: Tier, wall_cap: Duration) -> FamilyRes
             Err(mpsc::RecvTimeoutError::Timeout) => {}
             Err(mpsc::RecvTimeoutError::Disconnected) => break,
         }
-        // watchdog
+        // watchdog: the cap is on the processor time the case has used (a busy machine makes a case slow, not
+        // divergent); a case that sits without using the processor is stopped after ten times the cap of wall time
         for st in ws.iter_mut() {
-            if !st.done && st.inflight.is_some() && st.inflight_since.elapsed() > case_cap {
-                let _ = st.child.kill();
-                st.inflight_since = Instant::now();
+            if !st.done && st.inflight.is_some() {
+                let wall = st.inflight_since.elapsed();
+                let over = match cpu_seconds(st.child.id()) {
+                    Some(now) => now - st.inflight_cpu0 > case_cap.as_secs_f64() || wall > case_cap * 10,
+                    None => wall > case_cap,
+                };
+                if over {
+                    let _ = st.child.kill();
+                    st.inflight_since = Instant::now();
+                }
             }
         }
         if start.elapsed() > wall_cap {
